@@ -34,6 +34,7 @@ class ProgGen:
         self.ins = []        # (name, width)
         self.outs = []       # (name, width)
         self.consts = []     # (name, value)
+        self.params = []     # (name, value): Verilog parameters (addParameter / getParameterValue)
         self.state = []      # (name, init, bound)
         self.locals = []     # names
         self.env = {}        # var -> current hi bound (locals assigned so far, state)
@@ -55,6 +56,9 @@ class ProgGen:
         if r < 0.55 and self.env:
             v = rng.choice(sorted(self.env))
             return E(v, 0, self.env[v], True)
+        if r < 0.6 and self.params:
+            n, v = rng.choice(self.params)
+            return E("self.getParameterValue('%s')" % n, 0, v + 20, True)
         if r < 0.65 and self.consts:
             n, v = rng.choice(self.consts)
             # a constructor constant is treated as a range: another instance may be built with any value in [0, v + 20]
@@ -271,6 +275,8 @@ class ProgGen:
         self.ins = [('a%d' % i, rng.choice([1, 1, 3, 8, 12, 16, 24])) for i in range(nin)]
         self.outs = [('q%d' % i, rng.choice([1, 4, 8, 16, 32])) for i in range(nout)]
         self.consts = [('k%d' % i, rng.choice([1, 2, 3, 10, 200, rng.randint(0, 1000)])) for i in range(rng.randint(0, 2))]
+        if rng.random() < 0.3:
+            self.params = [('p%d' % i, rng.choice([1, 2, 5, 60, rng.randint(0, 500)])) for i in range(rng.randint(1, 2))]
         if self.wide and rng.random() < 0.3:
             self.wide_ins = [('w%d' % i, rng.choice([40, 48, 64])) for i in range(rng.randint(1, 2))]
             self.wide_outs = [('x%d' % i, rng.choice([40, 64])) for i in range(rng.randint(1, 2))]
@@ -295,7 +301,7 @@ class ProgGen:
         if not self.seq:
             pre = ['        self.%s.put(0)' % n for n, w in all_outs]
             body = pre + body
-        args = [n for n, w in all_ins] + [n for n, w in all_outs] + [n for n, v in self.consts]
+        args = [n for n, w in all_ins] + [n for n, w in all_outs] + [n for n, v in self.consts] + [n for n, v in self.params]
         L = ['import py4hw', '', '', 'class %s(py4hw.Logic):' % cls,
              '    def __init__(self, parent, name, %s):' % ', '.join(args),
              '        super().__init__(parent, name)']
@@ -305,6 +311,8 @@ class ProgGen:
             L.append("        self.%s = self.addOut('%s', %s)" % (n, n, n))
         for n, v in self.consts:
             L.append('        self.%s = %s' % (n, n))
+        for n, v in self.params:
+            L.append("        self.addParameter('%s', %s)" % (n, n))
         for n, init, bound in self.state:
             L.append('        self.%s = %d' % (n, init))
         L.append('')
@@ -313,7 +321,7 @@ class ProgGen:
         L += body
         L.append('')
         return {'src': '\n'.join(L), 'cls': cls, 'seq': self.seq, 'ins': all_ins, 'outs': all_outs,
-                'consts': self.consts, 'state': [(n, i, b) for n, i, b in self.state]}
+                'consts': self.consts + self.params, 'state': [(n, i, b) for n, i, b in self.state]}
 
 
 # ---------------------------------------------------------------------------- unsupported constructs (refusal clause)
